@@ -162,6 +162,17 @@ _MORE = {
     'C18': ' Files are parsed again under their ids only; fault families include one or two members damaged on an annotation line.',
     'C19': ' Accepted cases are followed by relatives (other annotations, respelled numbers, renamed aliases); undecodable files; real-process runs under four stdio encodings.',
 }
+_MORE2 = {
+    'C03': ' A position table places five kinds of reference at every typed position of the signature table; a print-alike table joins simplified narrow trees with a use of the same reference at another type.',
+    'C11': ' A shared-alias family (every alternative of a split position binds the same alias, later events refer to it) is enumerated.',
+    'C12': ' Pattern events may listen on the channel of the terminator or activator; predicates include conjunctions, disjunctions, negations and unsatisfiable conjunctions.',
+    'C14': ' Degenerate pipelines: every function on 17 roots that are a bare literal / variable / set / range / accessor, and again on everything returned.',
+    'C15': ' Near-miss names (suffix, prefix, one character more or less, other case) are asked of every tree.',
+    'C17': ' A nested-array table (declared lengths at two levels, literal indices at both levels, four syntactic forms: 576 cases) is enumerated completely.',
+}
+for _pid, _t in _MORE2.items():
+    EXTRA.setdefault(_pid, dict(level='', technique=''))
+    EXTRA[_pid]['level'] += _t
 for _pid, _t in _MORE.items():
     EXTRA.setdefault(_pid, dict(level='', technique=''))
     EXTRA[_pid]['level'] += _t
